@@ -689,8 +689,8 @@ def run(ctx):
                                    'impl': si[sd] if sd < len(si) else None, 'python_list': so[sd],
                                    'impl_trace': si, 'python_trace': so, 'unshrunk': {'init': init, 'history': cops}})
                 continue
-            hh = coq_hist(init, cops)
-            exprs.append('(run step %s, run pystep %s, valid_histb %s)' % (hh, hh, hh))
+            exprs.append('let x := %s in let h := [%s] in (run step x h, run pystep x h, valid_histb x h)' % (
+                zlist(init), '; '.join(coq_op(c) for c in cops)))
             meta.append(('hist', ti, key, ti_tr, or_tr))
     ctx.log('%d histories on the implementation vs Python list: %d mismatching' % (len(types) * per_type, nviol))
 
@@ -758,7 +758,7 @@ def run(ctx):
     # ---- evaluate model and abstract interpreter in Coq
     if ok:
         ctx.log('evaluating %d histories in Coq' % len(exprs))
-        res = ctx.coq_eval(['MPyC.SecList'], exprs, chunk=60)
+        res = ctx.coq_eval(['MPyC.SecList'], exprs, chunk=ctx.n(70, 150))
         agree = 0
         for r, (what, ti, key, itr, otr) in zip(res, meta):
             if isinstance(r, tuple) and r and r[0] == 'ERROR':
